@@ -240,7 +240,7 @@ def collectFields {ε α} : List (Except ε (List α)) → Except ε (List α)
 /-- the option keys of a declared field (`NewFieldBuildContext`) -/
 def keysOf (ctx : MsgCtx) (f : FieldD) : Keys :=
   { typeName := ctx.desc.name ++ "." ++ f.name,
-    path := if f.embed then ctx.desc.name else ctx.path ++ "." ++ f.name }
+    path := if f.embed then ctx.path else ctx.path ++ "." ++ f.name }
 
 /-- the Go type string of a declared field (`NewFieldBuildContext`) -/
 def goTypeOf (cfg : CfgView) (ctx : MsgCtx) (f : FieldD) : String :=
